@@ -36,6 +36,7 @@ class TCPServer:
         self.send_lock = asyncio.Lock()
         self.state = state
         self.idle_task = AsyncioSingleTask()
+        self._reading = True
 
     def __await__(self) -> Generator[Any, None, None]:
         return self.run().__await__()
@@ -70,6 +71,10 @@ class TCPServer:
                 await self.protocol.initiate()
                 await self.idle_task.restart(task_group, self._idle_timeout)
                 await self._read_data()
+                # The client has gone (or stopped sending), the idle
+                # timeout must not keep this connection's tasks alive.
+                self._reading = False
+                await self.idle_task.stop()
         except OSError:
             pass
         finally:
@@ -86,7 +91,9 @@ class TCPServer:
         elif isinstance(event, Closed):
             await self._close()
         elif isinstance(event, Updated):
-            if event.idle:
+            if event.idle and not self._reading:
+                await self._close()  # Nothing more can arrive
+            elif event.idle:
                 await self.idle_task.restart(self._task_group, self._idle_timeout)
             else:
                 await self.idle_task.stop()
